@@ -159,9 +159,10 @@ Definition contract_all (p : Z * Z) (c : Z) (enc : list (list Z)) : res (list (l
 
 Section Train.
   Variable OS : Type.                                       (* the oracle's private state: pair counts, lengths... *)
-  Variable sel_init : list (list Z) -> Z -> OS * option (Z * Z).   (* code points, max_char_code *)
+  (* code points, max_char_code.  The oracle may raise (Err): a KeyError in its own tables *)
+  Variable sel_init : list (list Z) -> Z -> res (OS * option (Z * Z)).
   (* state, pair just contracted, its code, encodings before and after that contraction *)
-  Variable sel_step : OS -> Z * Z -> Z -> list (list Z) -> list (list Z) -> OS * option (Z * Z).
+  Variable sel_step : OS -> Z * Z -> Z -> list (list Z) -> list (list Z) -> res (OS * option (Z * Z)).
 
   (* after the loop: `if len(tokens) == new_code - max_char_code:` contract the pending pair *)
   Definition finish (toks : list (list Z)) (ms : list (Z * Z)) (p : Z * Z) (new_code : Z)
@@ -178,7 +179,8 @@ Section Train.
     | S room' =>
         enc' <- contract_all p new_code enc ;;
         let new_code' := new_code + 1 in
-        match sel_step st p new_code enc enc' with
+        r <- sel_step st p new_code enc enc' ;;
+        match r with
         | (st', Some p') =>
             tok <- pair_to_string p' toks mcc ;;
             train_loop room' st' (toks ++ [tok]) (ms ++ [p']) p' new_code' enc' mcc
@@ -188,7 +190,8 @@ Section Train.
 
   Definition bpe_train (X : list (list Z)) (vocab_size mcc0 : Z) : res trained :=
     let mcc := fold_left Z.max (concat X) mcc0 in
-    match sel_init X mcc with
+    r <- sel_init X mcc ;;
+    match r with
     | (_, None) => Err 20     (* no pair / no pair occurring twice: np.max([]) or chr(-1) raise ValueError *)
     | (st, Some p) =>
         (* tokens = [chr(pair[0]) + chr(pair[1])] *)
@@ -198,11 +201,11 @@ Section Train.
     end.
 End Train.
 
-(* the oracle used by the correspondence check: replay a given code_list *)
-Definition replay_init (cl : list (Z * Z)) (_ : list (list Z)) (_ : Z) : list (Z * Z) * option (Z * Z) :=
-  (tl cl, hd_error cl).
+(* the oracle used by the correspondence check of the skeleton alone: replay a given code_list *)
+Definition replay_init (cl : list (Z * Z)) (_ : list (list Z)) (_ : Z) : res (list (Z * Z) * option (Z * Z)) :=
+  Ok (tl cl, hd_error cl).
 Definition replay_step (rest : list (Z * Z)) (_ : Z * Z) (_ : Z) (_ _ : list (list Z))
-  : list (Z * Z) * option (Z * Z) := (tl rest, hd_error rest).
+  : res (list (Z * Z) * option (Z * Z)) := Ok (tl rest, hd_error rest).
 
 (* ---------- return types ---------- *)
 (* np.unique: sorted, duplicate-free *)
